@@ -470,7 +470,8 @@ fn synth_dag(rng: &mut Rng) -> Option<(String, String)> {
 fn emit(out: &mut Out, seen: &mut HashSet<String>, case: String) {
     if !seen.insert(case.clone()) { return; }
     let sx = crate::sexp::parse(&case).unwrap();
-    let obs = eval(&sx);
+    // a panic of the evaluated code (or a failed harness expectation) is an observation: the driver reports it with this case
+    let obs = std::panic::catch_unwind(std::panic::AssertUnwindSafe(|| eval(&sx))).unwrap_or_else(|_| "(harness-panic 1)".to_string());
     // third field: 0 marks a trivial case (the tree is a single external leaf)
     out.n += 1;
     use std::io::Write;
